@@ -640,8 +640,39 @@ theorem queued_dial_failure_is_due (t : T) (id : Id) (pre post : List ConnRes) (
 
 example : Ev.dialFailure 0 ∈ due { conns := [.err 7, .ok 8, .err 0], dials := [0] } := by decide
 
+/-- **The overall deadline of `TcpTransport::open` reports a failure.** For every address list (stalling, refusing,
+answering nodes in any order), every `connection_open_timeout` and every deadline multiplier, when the manager does not
+cancel: (1) the future `open` queued never resolves to `Canceled` — the deadline arm (reached whenever the stalled
+attempts add up to the deadline) resolves it to `Failed` like the exhausted list; (2) the executor gets exactly one
+terminal event for the attempt, `OpenFailure` or `ConnectionOpened`; (3) the cancel handle is consumed and nothing stays
+queued; (4) if no address answers the event is `OpenFailure` (never silence). (5) `Canceled` — the one result `poll_next`
+swallows — comes out only if `Transport::cancel(id)` was called before the result was ready. -/
+theorem open_deadline_reports_failure (id : Id) (timeout mult : Nat) (addrs : List AddrKind) :
+    openFuture id timeout mult addrs none ≠ .canceled id ∧
+    ((drain 2 (afterOpen id timeout mult addrs none)).1 = [.openFailure id] ∨
+      (drain 2 (afterOpen id timeout mult addrs none)).1 = [.opened id]) ∧
+    ((drain 2 (afterOpen id timeout mult addrs none)).2.handles = [] ∧
+      size (drain 2 (afterOpen id timeout mult addrs none)).2 = 0) ∧
+    (AddrKind.answer ∉ addrs → (drain 2 (afterOpen id timeout mult addrs none)).1 = [.openFailure id]) ∧
+    (∀ c, openFuture id timeout mult addrs c = .canceled id →
+      ∃ t, c = some t ∧ t < (openRun id timeout (mult * timeout) addrs 0).2) := by
+  obtain ⟨h1, h2, h3, h4, h5⟩ := afterOpen_outcome id timeout mult addrs
+  exact ⟨h1, h2, ⟨h3, h4⟩, h5, fun c hc => openFuture_canceled id timeout mult addrs c hc⟩
+
+/-- Non-vacuity: three stalling addresses, 300 ms, multiplier 2 — the deadline (600) interrupts the second attempt and
+the result is `Failed` at 600, reported as `OpenFailure`; a stall then an answering node is `ConnectionOpened`; a cancel
+at 100 is silence; and the statement is not a tautology of the model's shape: the variant whose deadline arm returns
+`Canceled` (`openRunSilent`, the seeded change) gives the executor nothing. -/
+example : openRun 7 300 600 [.stall, .stall, .stall] 0 = (.failed 7, 600) ∧
+    (drain 2 (afterOpen 7 300 2 [.stall, .stall, .stall] none)).1 = [.openFailure 7] ∧
+    (drain 2 (afterOpen 7 300 2 [.stall, .answer] none)).1 = [.opened 7] ∧
+    (drain 2 (afterOpen 7 300 2 [.stall, .stall, .stall] (some 100))).1 = [] ∧
+    (openRunSilent 7 300 600 [.stall, .stall, .stall] 0).1 = .canceled 7 ∧
+    (drain 2 { raw := [(openRunSilent 7 300 600 [.stall, .stall, .stall] 0).1], handles := [(7, false)] }).1 = [] := by decide
+
 end Litep2pVerif.Props.C05.TcpPoll
 
 #print axioms Litep2pVerif.Props.C05.TcpPoll.poll_next_reports_every_ready_result
 #print axioms Litep2pVerif.Props.C05.TcpPoll.executor_collects_every_due_event
 #print axioms Litep2pVerif.Props.C05.TcpPoll.queued_dial_failure_is_due
+#print axioms Litep2pVerif.Props.C05.TcpPoll.open_deadline_reports_failure
